@@ -528,8 +528,15 @@ def rdiv(a, b):
         if math.isinf(b.n):
             return R(0.0)
         if b.n == 0:
-            _oblige('division-by-zero', E.FALSE)
-            raise EngineGap('division by concrete zero')
+            # x / 0.0 with symbolic x: IEEE gives +-inf (nan for 0/0); fork on the sign of x
+            if _EXPLORER[0] is None:
+                raise EngineGap('division by concrete zero')
+            if a > 0.0:
+                return R(math.copysign(float('inf'), b.n))
+            if a < 0.0:
+                return R(-math.copysign(float('inf'), b.n))
+            _oblige('zero-over-zero', E.FALSE)
+            return R(float('nan'))
         a = a._sym()
         inv = E.const(Fraction(1) / Fraction(b.n))
         return R(E.mul(a.n, inv), a.d)
